@@ -282,6 +282,13 @@ pub fn graph_scenario(idx: usize, rng: &mut Rng, o: &GraphOpts, family: &str) ->
             }
         }
     }
+    if family == "serde" {
+        for r in 0..w.n() {
+            if !w.dead {
+                w.probe_serde(r);
+            }
+        }
+    }
     if family == "migrate" || family == "migrateconf" {
         for r in 0..w.n() {
             if !w.dead {
